@@ -111,7 +111,7 @@ CLAIMED = {
    design="6/C14", engine="coq-param",
    technique="Coq proof (polynomial canonical forms, uniqueness by the identity theorem) + exact syntactic correspondence + sympy evaluation oracle"),
  "C17": dict(
-   text="19 theorems about a Gallina model of zx.Diagram.to_pyzx / from_pyzx (graph = vertices, typed edges, ordered "
+   text="30 theorems about a Gallina model of zx.Diagram.to_pyzx / from_pyzx (graph = vertices, typed edges, ordered "
         "inputs/outputs): the exported graph has one vertex per boundary wire and spider, one edge per wire, Hadamard "
         "flag = parity of H boxes on the wire (against an independent wire-tracing specification), inputs/outputs in "
         "wire order; every imported diagram is well-typed with the graph's numbers of inputs and outputs; bad "
@@ -120,12 +120,16 @@ CLAIMED = {
         "vertex tensors, Hadamard-edge convention, accumulated scalar) equals the layer-by-layer meaning of the diagram, "
         "every entry, in every commutative semiring with -1, 1/sqrt2, phase units and a complex embedding (hence in "
         "every StarRing and in the executable ring Cyc8, whose laws are proved) - by a loop invariant over the export "
-        "(one-vertex extension = contraction-order independence).  PARTIAL: import soundness is stated, refuted for the "
-        "pre-fix code on witnesses, and computed on instances only.  Tie to /repo (through a documented adapter "
+        "(one-vertex extension = contraction-order independence); IMPORT SOUNDNESS for the code as it is: for every "
+        "well-formed graph in scope (distinct vertices, boundaries and edge ends are vertices) the imported diagram "
+        "denotes the graph, every entry; importing then exporting is accepted and gives the graph back up to "
+        "presentation; the round trip to_pyzx / from_pyzx preserves the meaning; in-scope graphs are balanced (double "
+        "counting) and, when their vertex list is sorted, always imported (totality; the unsorted statement is refuted "
+        "by a witness, as is soundness without well-formedness).  Tie to /repo (through a documented adapter "
         "for pyzx 0.10.6): exact comparison of graphs and imported diagrams, pyzx's own to_matrix() against a numpy "
         "standard-interpretation evaluator in both directions.",
    design="6/C17", engine="coq-pyzx",
-   technique="Coq proof (shape theorems; export soundness by loop invariant over abstract semirings; import semantics partial) + exact graph correspondence + pyzx to_matrix oracle"),
+   technique="Coq proof (shape theorems; export and import soundness, totality over abstract semirings) + exact graph correspondence + pyzx to_matrix oracle"),
  "C18": dict(
    text="20 theorems about Gallina models of pregroup.eager_parse / brute_force, CFG.generate (random.shuffle as an "
         "explicit oracle), ccg.cat2ty / tree2diagram and the biclosed -> rigid translation: parses have empty domain, "
